@@ -73,7 +73,7 @@ pub fn check(ctx: &mut Ctx, cfg: &Cfg, how: How) {
         Err(p) => ctx.violate(
             "parse-back",
             kind,
-            &format!("panic@{}", crate::mon::c01::stage()),
+            &format!("panic@{}", crate::drive::site_file(&p.site)),
             case,
             "the matching parser accepts the bytes and every accessor returns",
             format!("panic at {}: {} (bytes {})", crate::drive::short_site(&p.site), p.msg, crate::json::hex(&bytes[..bytes.len().min(80)])),
@@ -101,7 +101,7 @@ pub fn check(ctx: &mut Ctx, cfg: &Cfg, how: How) {
             let exp = expect::content(cfg).expect("typed content");
             if let Err(why) = expect::same(&exp, &parsed.content, false) {
                 // discriminate by the field that differs (text before the first ':')
-                let field = why.split(':').next().unwrap_or("content").to_string();
+                let field: String = why.split(':').next().unwrap_or("content").chars().filter(|c| !c.is_ascii_digit()).collect::<String>().trim().replace("  ", " ");
                 ctx.violate(
                     "content",
                     kind,
